@@ -17,7 +17,7 @@ RULE = ("marked-up legal documents (italic/emphasis around party names with and 
 ASSUMPTIONS = ["the name-validity rule is re-implemented in the monitor from its documentation "
                "(length > 2, capitalised, no trailing period, not a number, not a disallowed name)"]
 FLOORS = {"quick": {"documents": 2000, "references_markup_mode": 800, "references_plain_mode": 300,
-                    "markup_only_references": 300, "same_markup_other_steps": 500, "callable_step_lists": 400, "nonreference_citations_compared": 5000},
+                    "markup_only_references": 300, "same_markup_other_steps": 500, "callable_step_lists": 400, "nonreference_citations_compared": 5000, "long_documents_in_batch": 40},
           "thorough": {"documents": 100000, "references_markup_mode": 40000, "markup_only_references": 15000}}
 N = {"quick": 300, "thorough": 14000}
 SHARDS = {"quick": 8, "thorough": 14}
@@ -115,6 +115,7 @@ def run_shard(spec, rec):
     if spec.get("probes"):
         for m, s in PROBES:
             check(m, s, rec, ac)
+    long_batch(spec, rec, ac)
     for k in range(spec["n"]):
         m = gen.markup_doc(rng)
         steps = rng.choice(gen.MARKUP_STEPS)
@@ -132,6 +133,35 @@ def run_shard(spec, rec):
                                     if x != list(steps)])
             rec.count("same_markup_other_steps")
             check(m, other, rec, ac)
+            check(m, steps, rec, ac)
+
+
+def long_batch(spec, rec, ac):
+    """Long marked-up opinions (12,000-25,000 characters) processed one after the other in one process, all
+    citing the SAME volume/reporter/page in full with different party names at different places: what a
+    document's references are founded on is its own text, not an earlier document's."""
+    rng = random.Random(spec["seed"] + 1717)
+    for _ in range(spec.get("nlong", 2)):
+        vol, rep, page = rng.randint(1, 600), rng.choice(gen.MK_REPS), rng.randint(1, 900)
+        docs = []
+        for _d in range(2):
+            P, D = rng.sample([n for n in gen.MK_NAMES if " " not in n and n not in ("State", "May", "Will", "Mark")], 2)
+            paras, size = [], 0
+            target = rng.randint(12000, 25000)
+            where = rng.randint(1, 6)
+            while size < target:
+                para = gen.markup_doc(rng)
+                if len(paras) == where:
+                    para = (f"<p>See {gen._it(rng, P + ' v. ' + D + ',')} {vol} {rep} {page} ({rng.randint(1950, 2020)}). "
+                            f"In {gen._it(rng, D)}, the court held otherwise; {gen._it(rng, P)} at {page + 2}.</p>")
+                paras.append(para)
+                size += len(para)
+            # one more reference far into the document
+            paras.append(f"<p>As {gen._it(rng, D)} shows, and {gen._it(rng, P + ',')} too.</p>")
+            docs.append("\n".join(paras))
+        steps = rng.choice([["html", "all_whitespace"], ["html", "inline_whitespace"]])
+        for m in (docs[0], docs[1], docs[0], docs[1]):
+            rec.count("long_documents_in_batch")
             check(m, steps, rec, ac)
 
 
